@@ -113,6 +113,33 @@ def run(ctx):
                             ctx.violation('generator-reuse', 'two identical calls given the same generator object (same seed) return different ' + ' '.join(toks[2:]),
                                           {'case': l, 'how': 'run the harness on this case with VERIF_REUSE_GEN=1'})
     ctx.extra['generator_reuse_calls'] = n_reuse
+    # the command line front end: the same arguments in two fresh processes (started in different wall-clock seconds) write the same
+    # files, and run_info.dat carries the seed that was supplied -- seeds 0, 1, negative, large
+    import files, time
+    n_cli = 0
+    if ctx.bdir:
+        wdc = vf.workdir()
+        for j, seed in enumerate(['0', '1', '-7', '5489', '00', '2147483647'][:ctx.budget(4, 6)]):
+            d = os.path.join(wdc, 'cli_det%d' % j)
+            os.makedirs(d)
+            sub = rng.fork('cd%d' % j)
+            e = gen.gen_edges(sub, 'u', 'u', nmax=5, lmax=2, recmax=8)
+            open(os.path.join(d, 'a.dat'), 'wb').write(files.render_adjacency(sub, e['recs'], 'plain')[0])
+            args = ['--a', 'a.dat', '--k', '2', '--r', '2', '--maxit', '12', '--s', seed] + (['--undirected'] if j % 2 else [])
+            rc1, o1 = vf.run_cli(ctx.bdir, args + ['--o', 'o1'], d)
+            time.sleep(1.1)
+            rc2, o2 = vf.run_cli(ctx.bdir, args + ['--o', 'o2'], d)
+            n_cli += 1
+            f1, f2 = files.read_result_files(os.path.join(d, 'o1')), files.read_result_files(os.path.join(d, 'o2'))
+            strip = lambda f: {n: [r for r in rows if r[:2] != ['#', 'Duration']] for n, rows in f.items()}
+            if rc1 != rc2 or strip(f1) != strip(f2):
+                ctx.violation('cli-repeat', 'the command line gives different results for the same arguments (--s %s) in two processes' % seed,
+                              {'args': args, 'file': open(os.path.join(d, 'a.dat')).read(), 'differing': [n for n in f1 if strip(f1).get(n) != strip(f2).get(n)]})
+            elif rc1 == 0:
+                got = [r[3] for r in f1.get('run_info.dat', []) if r[:3] == ['#', 'Seed', '=']]
+                if got != [str(int(seed))]:
+                    ctx.violation('cli-seed', 'run_info.dat reports seed %s, the seed supplied was %s' % (got, seed), {'args': args})
+    ctx.extra['cli_repeat_pairs'] = n_cli
     # lint: static / global state in the library headers
     lint = []
     for p in vf.walk(os.path.join(vf.REPO, 'include'), ('.hpp',)):
